@@ -210,7 +210,7 @@ impl Driver for C17 {
             match std::panic::catch_unwind(|| check_lp_export(&lm)) {
                 Ok(Ok(())) => {
                     out.tag("held");
-                    if case == 0 && out.unit < 2 {
+                    if out.report.samples.is_empty() && out.unit < 16 {
                         out.sample(json!({"model": spec, "lp_text": lm.to_lp_format()}));
                     }
                 }
